@@ -93,7 +93,9 @@ fn main() {
                 r_iseq::replay(&sub, rep, 1, seed.wrapping_add(r.start as u64));
             });
             for (i, st) in crashes {
-                rep.finding(Class::Oob, &format!("is_equal family: process died with {} (operands abut PROT_NONE pages)", describe_status(st)), serde_json::json!({"vector": vs[i]}));
+                let sig = st & 0x7f;
+                let class = if sig == 11 || sig == 7 { Class::Oob } else { Class::Panic };
+                rep.finding(class, &format!("is_equal family: process died with {} (operands abut PROT_NONE pages)", describe_status(st)), serde_json::json!({"vector": vs[i]}));
             }
         }
         "replay-mm" => {
@@ -174,8 +176,11 @@ fn main() {
             rep.count("records", n);
         }
         "record-pair" => {
-            let n = rec_lib::record_pair(args.val("--trace").expect("--trace"), args.num("--count", 200) as usize, seed);
+            let (n, panics) = rec_lib::record_pair(args.val("--trace").expect("--trace"), args.num("--count", 200) as usize, seed);
             rep.count("records", n);
+            for p in panics {
+                rep.finding(Class::Panic, &p, serde_json::json!({}));
+            }
         }
         "conc-child" => {
             rec_lib::conc_child(args.val("--trace").expect("--trace"), args.num("--threads", 4) as usize, seed, args.num("--rounds", 20) as usize);
